@@ -143,6 +143,8 @@ def r_parens(ctx):
 
 
 def check(ctx):
+    from . import c04
+    c04.r_grammar_words(ctx, 'R17.4')
     r_capture(ctx)
     r_names_raw(ctx)
     r_parens(ctx)
